@@ -133,17 +133,58 @@ Sub1 ==
     \cup {Quant(op, AX, Atom("true")) : op \in Quantifiers}
 Children == Leaves \cup Sub1 \cup {Un("Parens", s) : s \in Sub1}
 
-VARIABLES ast, str
-vars == <<ast, str>>
+(***************************************************************************)
+(* Part 3 - items.  Facts, rules, checks of the three kinds and policies   *)
+(* over every type of term, with `trusting` annotations made of authority, *)
+(* previous and public keys of both algorithms; the text each printer      *)
+(* (builder Display, the token's block source, the authorizer's dump) must *)
+(* write, which must parse back to the same item.  KED / KP256 stand for   *)
+(* the textual form of an ed25519 / secp256r1 public key.                  *)
+(***************************************************************************)
+TermKinds == {"i1", "ineg", "str", "date", "bytes", "btrue", "null", "set", "arr", "map"}
+TermText(t) ==
+    CASE t = "i1" -> "1" [] t = "ineg" -> "-5" [] t = "str" -> "\"ab\"" [] t = "date" -> "2020-01-01T00:00:00Z"
+      [] t = "bytes" -> "hex:0102" [] t = "btrue" -> "true" [] t = "null" -> "null" [] t = "set" -> "{1, 2}"
+      [] t = "arr" -> "[1, \"a\"]" [] t = "map" -> "{\"k\": 1}"
+ItemScopes == {<<>>, <<"authority">>, <<"previous">>, <<"KED">>, <<"KP256">>, <<"authority", "KP256">>, <<"KED", "previous">>, <<"KP256", "KED">>}
+RECURSIVE JoinComma(_)
+JoinComma(sq) == IF Len(sq) = 1 THEN sq[1] ELSE sq[1] \o ", " \o JoinComma(Tail(sq))
+ScopeText(sc) == IF sc = <<>> THEN "" ELSE " trusting " \o JoinComma(sc)
+
+Item(kind, sub, t, t2, sc, alt, sc2) == [kind |-> kind, sub |-> sub, t |-> t, t2 |-> t2, sc |-> sc, alt |-> alt, sc2 |-> sc2]
+Keyword(it) ==
+    CASE it.kind = "check" -> (CASE it.sub = "one" -> "check if" [] it.sub = "all" -> "check all" [] it.sub = "reject" -> "reject if")
+      [] it.kind = "policy" -> (IF it.sub = "allow" THEN "allow if" ELSE "deny if")
+QueryText(it) ==
+    "f($x), g(" \o TermText(it.t) \o ")" \o ScopeText(it.sc)
+    \o (IF it.alt THEN " or h($x)" \o ScopeText(it.sc2) ELSE "")
+ItemText(it) ==
+    CASE it.kind = "fact" -> "f(" \o TermText(it.t) \o ")"
+      [] it.kind = "rule" -> "r($x, " \o TermText(it.t) \o ") <- f($x), g(" \o TermText(it.t2) \o ")" \o ScopeText(it.sc)
+      [] OTHER -> Keyword(it) \o " " \o QueryText(it)
+
+Items ==
+    {Item("fact", "-", t, "-", <<>>, FALSE, <<>>) : t \in TermKinds}
+    \cup {Item("rule", "-", t, t2, sc, FALSE, <<>>) : t \in TermKinds, t2 \in {"i1", "str", "map"}, sc \in ItemScopes}
+    \cup {Item("check", k, t, "-", sc, FALSE, <<>>) : k \in {"one", "all", "reject"}, t \in TermKinds, sc \in ItemScopes}
+    \cup {Item("check", k, t, "-", sc, TRUE, sc2) : k \in {"one", "all", "reject"}, t \in {"i1", "null"}, sc \in ItemScopes, sc2 \in ItemScopes}
+    \cup {Item("policy", k, t, "-", sc, FALSE, <<>>) : k \in {"allow", "deny"}, t \in TermKinds, sc \in ItemScopes}
+    \cup {Item("policy", k, t, "-", sc, TRUE, sc2) : k \in {"allow", "deny"}, t \in {"i1", "arr"}, sc \in ItemScopes, sc2 \in ItemScopes}
+NoItem == Item("fact", "-", "i1", "-", <<>>, FALSE, <<>>)
+
+VARIABLES ast, str, item
+vars == <<ast, str, item>>
 
 
 
 
 Init ==
     IF Part = "strings"
-    THEN /\ ast = A1
+    THEN /\ ast = A1 /\ item = NoItem
          /\ \E n \in 0..MaxLen : str \in [1..n -> Alphabet]
-    ELSE /\ str = <<>>
+    ELSE IF Part = "items"
+    THEN /\ ast = A1 /\ str = <<>> /\ item \in Items
+    ELSE /\ str = <<>> /\ item = NoItem
          /\ ast \in Children
 
 Next ==
@@ -155,7 +196,7 @@ Next ==
          \/ \E op \in Quantifiers : ast' = Quant(op, l, ast)
          \/ \E op \in Methods1 \cup {"Negate", "Parens"} : ast' = Un(op, ast)
     /\ NodeOK(ast')
-    /\ UNCHANGED str
+    /\ UNCHANGED <<str, item>>
 
 Spec == Init /\ [][Next]_vars
 
@@ -165,10 +206,14 @@ StringRoundTrip ==
         LET r == Lex(PrintStr(str)) IN r.ok /\ r.rest = <<>> /\ r.val = str
 
 \* Part 2: VIEW used to check unique readability (run with and without, compare the state counts)
-TextView == <<Show(ast), str>>
+TextView == <<Show(ast), str, ItemText(item)>>
+\* Part 3: two items never print the same text (checked with VIEW ItemView against the plain count)
+ItemView == ItemText(item)
 
 ExportStr ==
     (ExportOn /\ Part = "strings") => PrintT(<<"STR", ToJson([s |-> str, text |-> PrintStr(str)])>>)
+ExportItem ==
+    (ExportOn /\ Part = "items") => PrintT(<<"ITEM", ToJson([item |-> item, text |-> ItemText(item)])>>)
 ExportExpr ==
     (ExportOn /\ Part = "exprs" /\ (SampleN = 1 \/ RandomElement(1..SampleN) = 1)) =>
         PrintT(<<"EXPR", ToJson([ast |-> ast, text |-> Show(ast)])>>)
